@@ -1,6 +1,6 @@
 """Property -> rules wiring and MANIFEST metadata."""
 from . import facts
-from .rules import f5_trace, f6_kinds, f7_roots, f4_gc, f4_chan, f4_sched, f4_vm, f1_isa, f9_casts, f10_parity
+from .rules import f5_trace, f6_kinds, f7_roots, f4_gc, f4_chan, f4_sched, f4_vm, f1_isa, f9_casts, f10_parity, f2_emit, f4_exc, f4_cache, f4_obj
 
 
 def D(rec):
@@ -34,9 +34,52 @@ def c20(rec, tier):
     f4_gc.intern_funnel(rec, F)
 
 
+def c02(rec, tier):
+    F = D(rec)
+    S = SY(rec)
+    f2_emit.run_twins(rec, S)
+    f4_obj.run_closures(rec, F)
+    T = f1_isa.run_tables(rec, F)
+    f1_isa.run_width(rec, F, T)
+
+
+def c03(rec, tier):
+    F = D(rec)
+    S = SY(rec)
+    f2_emit.run_fixed_index(rec, S)
+    f4_obj.run_classes(rec, F)
+    f2_emit.run_provenance(rec, S)
+    f9_casts.run_receiver_soundness(rec, F, S)
+
+
+def c04(rec, tier):
+    F = D(rec)
+    S = SY(rec)
+    f2_emit.run_handlers(rec, S, F)
+    f2_emit.run_depth_provenance(rec, F)
+    f4_exc.run(rec, F)
+    T = f1_isa.run_tables(rec, F)
+    f1_isa.run_effect(rec, F, T, only=("PushHandler", "PopHandler", "CheckHandler", "FinishUnwind", "ContinueUnwind", "GetError", "Raise"))
+
+
+def c13(rec, tier):
+    F = D(rec)
+    S = SY(rec)
+    f4_cache.run(rec, F)
+    f2_emit.run_slots(rec, S)
+    f4_vm.cache_coverage(rec, F)
+    f5_trace.run(rec, F, only_adts=("laythe_vm::vm::Vm", "laythe_vm::cache::InlineCache"))
+
+
 def c06(rec, tier):
     F = D(rec)
+    S = SY(rec)
     f1_isa.run_all(rec, F)
+    f2_emit.run_slots(rec, S)
+    f2_emit.run_depth_provenance(rec, F)
+    f2_emit.run_constant_kinds(rec, S, F)
+    f2_emit.run_provenance(rec, S)
+    f9_casts.run_static_slices(rec, F)
 
 
 def c07(rec, tier):
@@ -102,6 +145,8 @@ def c16(rec, tier):
     f9_casts.run_static_slices(rec, F)
     f4_vm.frame_limit(rec, F)
     f6_kinds.run(rec, F)
+    f2_emit.run_provenance(rec, S)
+    f2_emit.run_constant_kinds(rec, S, F)
 
 
 def c17(rec, tier):
@@ -123,9 +168,33 @@ def c19(rec, tier):
     f4_vm.diagnostics_gate(rec, F)
 
 
-CHECKS = {"C05": c05, "C06": c06, "C10": c10, "C11": c11, "C14": c14, "C07": c07, "C08": c08, "C09": c09, "C15": c15, "C16": c16, "C17": c17, "C18": c18, "C19": c19, "C20": c20}
+CHECKS = {"C02": c02, "C03": c03, "C04": c04, "C13": c13, "C05": c05, "C06": c06, "C10": c10, "C11": c11, "C14": c14, "C07": c07, "C08": c08, "C09": c09, "C15": c15, "C16": c16, "C17": c17, "C18": c18, "C19": c19, "C20": c20}
 
 META = {
+    "C02": {
+        "text": "Twin agreement of the four variable access emitters over all (resolution, SymbolState) cases (a captured variable never maps to a raw-slot instruction; captured declarations always allocate a box); op_closure copies box references per CaptureIndex kind and reads exactly capture_count operands; boxes are allocated only by EmptyBox/Box; get/set box/capture go through the box; add_capture de-duplicates only equal Local slots. Innermost-declaration resolution and fresh-variable-per-execution are declined (properties of the resolver's symbol tables over all programs).",
+        "note": "Structural necessary conditions of sharing-by-reference.",
+        "technique": "static analysis: syntax-tree case-table comparison (syn) + MIR inspection of handlers",
+        "design_ref": "DESIGN.md §3 C02",
+    },
+    "C03": {
+        "text": "Fixed-index property instructions only without an explicit superclass; Class < Inherit < fields/methods emission order; field numbering order shared by record_field/emit_fields/add_field; Class::inherit copies both tables, falls back to the super initialiser and is the only writer of super_class; instance field shadows class method on the invoke miss path; call_method/bind_method/call_class receiver placement; instance size from class.fields(); undeclared members raise the property error at every site; superclass admissibility. Dispatch results over all hierarchies and bound-method identity are declined.",
+        "note": "Structural clauses only.",
+        "technique": "static analysis: syntax-tree context queries (syn) + MIR dominance/def-use",
+        "design_ref": "DESIGN.md §3 C03",
+    },
+    "C04": {
+        "text": "try_/catch emission skeletons; every explicit early exit emits the guarded PopHandler before its transfer; multiplicity contradiction (constant-bounded pops vs unbounded nesting, nothing clears handlers on frame exit); handler depth provenance (must depend on arity because unwinding restores stack_start + slot_depth and stack_start lies below the arguments); unwind sets stack_top/frame/ip together; catch filter direction and jump edge; FinishUnwind/ContinueUnwind/handler-error bookkeeping; raise filter; F1.e over the exception opcodes. Which handler a dynamic raise reaches and state preservation as an input/output relation are declined.",
+        "note": "Emission-flow obligations (F3: linear depth = real depth at every try) are in the thorough tier.",
+        "technique": "static analysis: emission-order queries on the syntax tree + MIR dominance/def-use + handler dataflow",
+        "design_ref": "DESIGN.md §3 C04",
+    },
+    "C13": {
+        "text": "In every cache-using handler the probed class is the filled class with the instruction's single slot operand; the cached payload was looked up on that class with the instruction's own name operand; every normally-ending path hits, fills or clears the slot (shadowing paths clear); lookups return their payload only on class equality; cache-using instructions are always followed by their slot pseudo-op; cache coverage for re-compiled modules; cache entries hold raw class pointers so the cache must be a GC root or be invalidated by collection (F5 on Vm). Behaviour over receiver histories is declined.",
+        "note": "Structural clauses only.",
+        "technique": "static analysis: MIR root-identity/def-use + path dataflow; syntax adjacency for slot pairing",
+        "design_ref": "DESIGN.md §3 C13",
+    },
     "C06": {
         "text": "Row-by-row agreement of the five hand-kept ISA tables over all 79 symbolic / 74 real opcodes: len = encoder bytes = encoder line entries = 1 + operand bytes every handler path consumes (with operand widths); stack_effect as a linear form in the operand = handler net push/pop on every normally-ending path ((taken, fall-through) pairs for conditional transfers); retry-by-rewind paths rewind exactly len after all reads on a stack-neutral parked path; jump bias = len with the right sign and a range check; label offsets; stack reservation for pushes the compiler does not account for. Decides these structural clauses (necessary for the stack contract), not index-in-range of constants/locals per program.",
         "note": "Call protocol summarised as callee+n args -> 1 result; Fiber::split summarised as removing the callee slot. Emission-side clauses (F2/F3) are added as those engines are wired in.",
